@@ -70,6 +70,15 @@ CLAIMED.update({
              note=CONC_NOTE + " On real runs the instant of receipt is not observable; it is bracketed by the loop goroutine's callback intervals."),
 })
 
+CLAIMED.update({
+ "C17": dict(design="5.3/C17", technique="Coq proof: skeleton closure (quiet during exec, ticker/reader resumed) + mode algebra over the GENERATED ReleaseTerminal/RestoreTerminal call lists (release_then_restore, both cursor conventions); real Programs with a fake ExecCommand: output/input/modes/callback observed, Spec.Modes evaluated in Coq",
+             text="C17_quiet_during_exec (in every reachable state where the external command runs: ticker stopped by the handshake, read loop not reading, signals ignored, terminal restored), C17_resumes_after_exec, C17_release_then_restore (default modes at hand-over; afterwards alt screen / paste / focus exactly as before, for every mode state and every remembered triple). Real runs: random options x mode histories x 1..5 consecutive execs (success/failure, with/without callback) x pipe/reader/no input with bytes arriving during and after: nothing written while the command runs, its stdin gets the bytes that arrive meanwhile, callback once with the command's error, input read again, view repainted, modes handed over and back. F12 found and repaired.",
+             note=SKEL_NOTE + " cancelreader's cancellation latency (<= 500 ms) is exercised, not proved; a plain io.Reader cannot be cancelled by that library (outside the property's file-descriptor clause); mouse modes are deliberately not re-enabled."),
+ "C18": dict(design="5.3/C18", technique="Coq proof: skeleton closure (signal -> message map, ignore gating incl. WithoutSignals across release/restore, no handler without consent, error class and restore at return) + renderer size adoption; OS half exercised: one child process per scenario on a pseudo-terminal (real SIGINT/SIGTERM/SIGWINCH, TIOCSWINSZ, termios)",
+             text="C18_signal_forwarded / C18_signal_received / C18_error (SIGINT => interrupt message => ErrInterrupted, SIGTERM => quit => nil, terminal restored), C18_ignored, C18_without_signals (never forwarded, also after the terminal was released and restored), C18_no_handler, C18_size_adopted, C18_size_reaches_update. Real runs: signal x option x phase (idle, inside Update, released, after an Exec, ignored-then-again) and 1..3 resizes of a pty (spaced, burst while Update is busy, while released, WindowSize command): true sizes reported, last reported = true size, renderer clips to it, termios restored. F8 (shared with C04) and F11 found and repaired.",
+             note=SKEL_NOTE + " Signal delivery, signal.Notify, TIOCGWINSZ and termios are the OS and the Go runtime: exercised through the pty, not proved (C18 model half only)."),
+})
+
 def main():
     here = os.path.dirname(os.path.dirname(os.path.abspath(__file__)))
     props = [json.loads(l) for l in open(os.path.join(here, "properties.jsonl"))]
